@@ -386,6 +386,8 @@ def corpus(c, small=False):
     s = [Schema("cases", [T + "/cases.tl"], tl2="*", sanity=True, bytes_wl="cases_bytes."),
          Schema("casesns", [T + "/cases.tl"], tl2="", sanity=False)]
     s.append(Schema("zs", [os.path.join(ROOT, "schemas", "zerosize.tl")], tl2="", sanity=True))
+    # dictionaries whose values own storage (slices, nested maps, pointers): reuse bugs inside container readers show only there
+    s.append(Schema("dv", [os.path.join(ROOT, "schemas", "dictval.tl")], tl2="*", sanity=True, bytes_wl="dv."))
     if c.thorough and not small:
         s += [Schema("gold", [T + "/goldmaster.tl", T + "/goldmaster2.tl", T + "/goldmaster3.tl"], tl2="*", sanity=True, split=True,
                      bytes_wl="ch_proxy.,ab.")]
